@@ -31,6 +31,13 @@ def catalogue(rnd, n_random):
             out.append(('fast decay through the near-zero band a=%s x0=%s' % (a, x0), 'x = %s*LAGX\nLAGX = x(k-1)\n' % a, {'x': x0}))
     for x0 in (1.0, -3.0):
         out.append(('oscillate x0=%s' % x0, 'x = -1.0*LAGX\nLAGX = x(k-1)\n', {'x': x0}))
+    # names that look like lags / prefixes of excluded names, small sign-changing cycles, loose tolerances
+    for nm in ('G_t', 'A_t', 'L_k', 'LAG_x', '_t'):
+        out.append(('trend named %s' % nm, '%s = LL%s + 1\nLL%s = %s(k-1)\n' % (nm, nm, nm, nm), {nm: 0.0}))
+        out.append(('decay named %s' % nm, '%s = 0.5*LL%s + 1\nLL%s = %s(k-1)\n' % (nm, nm, nm, nm), {nm: -7.0}))
+    for amp in (0.008, 0.0008, 0.00009, 0.04):
+        out.append(('small cycle %s' % amp, 'x = -1.0*LAGX\nLAGX = x(k-1)\n', {'x': amp}))
+        out.append(('small asymmetric cycle %s' % amp, 'x = -1.0*LAGX + %r\nLAGX = x(k-1)\n' % (amp / 2,), {'x': amp}))
     out.append(('exo', 'x = 0.5*LAGX + g\nLAGX = x(k-1)\nexogenous\ng = [20.]*5 + [30.]*300\n', {'x': 0.0}))
     out.append(('exo-neg', 'x = 0.5*LAGX + g\nLAGX = x(k-1)\nexogenous\ng = [-20.]*5 + [30.]*300\n', {'x': 0.0}))
     for i in range(n_random):
@@ -107,7 +114,7 @@ def search(tier, seed, **opts):
     cat = catalogue(rnd, 20 if tier == 'quick' else 400)
     for (name, eqs, ics) in cat:
         for T in (3, 50, 200):
-            for tol in (1e-4, 1e-2):
+            for tol in (1e-4, 1e-2, 1e-3):
                 for pre in (False,):   # a presolved solver violates SolveStep's own precondition (series length == step)
                     acc, bad = run_case(name, eqs, ics, T, tol, pre)
                     r.case((name, T, tol, pre), acc, sample={'system': eqs, 'initial': ics, 'T': T, 'tol': tol, 'presolved': pre, 'accepted': acc})
